@@ -171,7 +171,22 @@ pub fn plan_for(seed: u64, run: u64, prop: &str) -> Plan {
 }
 
 /// Execute one plan under an engine. `only`: evaluate just this crash point (replay).
+/// One run. Known findings met anywhere inside it (also by the executors that recover crash
+/// images) are collected per thread and returned with the run.
 pub fn execute(plan: &Plan, engine: Engine, crash_seed: u64, images: usize, only: Option<&Extra>) -> RunOut {
+    crate::exec::KNOWN_SEEN.with(|k| k.borrow_mut().clear());
+    let mut out = execute_inner(plan, engine, crash_seed, images, only);
+    crate::exec::KNOWN_SEEN.with(|k| {
+        for line in k.borrow_mut().drain(..) {
+            if !out.known.contains(&line) {
+                out.known.push(line);
+            }
+        }
+    });
+    out
+}
+
+fn execute_inner(plan: &Plan, engine: Engine, crash_seed: u64, images: usize, only: Option<&Extra>) -> RunOut {
     if engine == Engine::Fault {
         return execute_fault(plan, crash_seed, images, only);
     }
